@@ -5,7 +5,7 @@ import re
 META = dict(
     level='exploration', engine='direct harness: all rank views of one distribution built in one process, no MPI traffic',
     technique='runtime monitoring: generated parameter sets drive the real init / rank_of / rank_of_key / data_key / vpid_of / data_of / data_of_key entry points of every distribution for every rank\'s view; online oracles (owner agreement, pigeonhole on local slots, distinct data objects inside the data_map, disjoint byte ranges inside the local allocation, key round trips); assertion failures of the library are intercepted and recorded; ASan+UBSan in the verdict build, the same monitor on the production build (NDEBUG)',
-    text='Random parameter sets (matrix 1..40 x 1..40, tiles 1..7, sub-matrix offsets, grids up to 16 ranks, k-cyclicity 1..4, grid offsets ip/jq, band widths, random/explicit/user tables, vector diag/row/col) for the 2D block-cyclic distribution, its k-cyclic variant and k-view, the symmetric distribution (whole and diagonal sub-matrix), the band and symmetric-band compositions, the tabular distribution and the vector distribution. For every set the view of every rank is built and all views must agree on one valid owner per tile; on the owner the tiles must fit the local slots, map to distinct data objects of the data_map with pairwise disjoint byte ranges inside the local allocation; keys must be distinct, map back to coordinates and the *_of_key entry points must agree with the coordinate ones; vpid in range. Held on the parameter sets explored (apart from the recorded findings); sampled, not exhaustive.',
+    text='Random parameter sets (matrix 1..40 x 1..40, tiles 1..7, sub-matrix offsets, grids up to 16 ranks, k-cyclicity 1..4, grid offsets ip/jq, band widths, random/explicit/user tables, vector diag/row/col) for the 2D block-cyclic distribution, its k-cyclic variant and k-view, the symmetric distribution (whole and diagonal sub-matrix), the band and symmetric-band compositions, the tabular distribution, the vector distribution and the symmetric block-cyclic (sbc) distribution on 1..15 ranks. For every set the view of every rank is built and all views must agree on one valid owner per tile; on the owner the tiles must fit the local slots, map to distinct data objects of the data_map with pairwise disjoint byte ranges inside the local allocation; keys must be distinct, map back to coordinates and the *_of_key entry points must agree with the coordinate ones; vpid in range. Held on the parameter sets explored (apart from the recorded findings); sampled, not exhaustive.',
     note='Trusts the harness bookkeeping (owner table, sorted range check). nb_vp is 1 in every run (multi-vp maps are unreachable, DESIGN f52f348), so the vpid oracle only sees 0. LAPACK storage is not driven. Sub-matrix pigeonhole is a necessary condition only (40 % of the sets use the whole matrix, where it is exact). The hang-prone vector-diag grids are only driven by dedicated probes.',
     design_ref='DESIGN.md §4 C20')
 
@@ -15,9 +15,9 @@ RULE = ('one case = one parameter set of one distribution family with the views 
 
 FLOORS = (1500, 500)
 
-QUICK = dict(bc=220, kcyc=220, kview=110, sym=180, symsub=80, band=180, symband=110, tab=180, vec=120, vecsub=100)
-THOROUGH_ASAN = dict(bc=5000, kcyc=5000, kview=3000, sym=4000, symsub=2000, band=4000, symband=3000, tab=4000, vec=3000, vecsub=2000)
-THOROUGH_REL = dict(bc=40000, kcyc=40000, kview=25000, sym=30000, symsub=15000, band=30000, symband=25000, tab=30000, vec=20000, vecsub=10000)
+QUICK = dict(bc=220, kcyc=220, kview=110, sym=180, symsub=80, band=180, symband=110, tab=180, vec=120, vecsub=100, sbc=120)
+THOROUGH_ASAN = dict(bc=5000, kcyc=5000, kview=3000, sym=4000, symsub=2000, band=4000, symband=3000, tab=4000, vec=3000, vecsub=2000, sbc=3000)
+THOROUGH_REL = dict(bc=40000, kcyc=40000, kview=25000, sym=30000, symsub=15000, band=30000, symband=25000, tab=30000, vec=20000, vecsub=10000, sbc=20000)
 COVKEYS = ('views', 'tiles', 'data_of', 'key_checks', 'multi_rank', 'submatrix', 'grid_offset', 'k_gt_1', 'partial_last_tile',
            'ranks_owning_nothing', 'cases_abandoned_on_assert')
 
@@ -42,7 +42,7 @@ def _family(ctx, exe, flavour, fam, cases, seed, timeout):
     while start < cases:
         tag = '%s-%s-%d' % (flavour, fam, start)
         cmd = [exe, '--family', fam, '--cases', str(cases), '--start', str(start), '--seed', str(seed)]
-        r = ctx.run(cmd, timeout=timeout, stall_s=60, tag=tag)
+        r = ctx.run(cmd, timeout=timeout, stall_s=240, tag=tag)
         what = '%s/%s cases %d..%d seed %d' % (flavour, fam, start, cases, seed)
         st = ctx.absorb(r, what)
         out.append((r, st))
@@ -104,7 +104,7 @@ def run(ctx):
             if fl == 'asan':
                 for smp in r.of('sample')[:1]:
                     smp = dict(smp); smp.pop('type', None)
-                    if fam in ('kcyc', 'band', 'sym', 'tab', 'kview'):
+                    if fam in ('kcyc', 'band', 'sym', 'tab', 'sbc'):
                         ctx.sample(smp)
 
     # vector diag on grids where the start-up loop of parsec_vector_two_dim_cyclic_init does not terminate: single-case
